@@ -528,3 +528,87 @@ func (g *Graph) ContextByReference(ctxFile string, mode string) (doc string, ctx
 	emitJSON(&b, d, &jsonStyle{colon: ":"}, 0)
 	return b.String(), `{"@context": {"ex": "` + EX + `"}}`
 }
+
+// ScopedContexts renders the graph with one @context per "unit": a node whose IRI is the part before '#' of other
+// nodes' IRIs carries {"@base": its IRI} and embeds those nodes, written with the relative ids "#fragment". Two units
+// then hold node objects that are written alike and are different nodes. ok is false when the graph has no such unit.
+func (g *Graph) ScopedContexts() (doc string, ok bool) {
+	children := map[string][]*Node{} // unit IRI -> fragment nodes
+	isChild := map[string]bool{}
+	for _, n := range g.Nodes {
+		if i := strings.Index(n.ID, "#"); i > 0 {
+			if u := g.Node(n.ID[:i]); u != nil {
+				children[u.ID] = append(children[u.ID], n)
+				isChild[n.ID] = true
+			}
+		}
+	}
+	if len(children) == 0 {
+		return "", false
+	}
+	var render func(n *Node, unit string, embedded map[string]bool) *OObj
+	render = func(n *Node, unit string, embedded map[string]bool) *OObj {
+		o := &OObj{}
+		id := n.ID
+		if unit != "" && strings.HasPrefix(id, unit+"#") {
+			id = id[len(unit):]
+		}
+		o.Set("@id", id)
+		if len(n.Types) > 0 {
+			ts := make([]any, len(n.Types))
+			for i, t := range n.Types {
+				ts[i] = t
+			}
+			o.Set("@type", ts)
+		}
+		for _, p := range n.Props {
+			vals := make([]any, 0, len(p.Values))
+			for _, v := range p.Values {
+				if v.IsRef() {
+					if c := g.Node(v.Ref); c != nil && unit != "" && isChild[c.ID] && strings.HasPrefix(c.ID, unit+"#") && !embedded[c.ID] {
+						embedded[c.ID] = true
+						vals = append(vals, render(c, unit, embedded))
+						continue
+					}
+					r := &OObj{}
+					rid := v.Ref
+					if unit != "" && strings.HasPrefix(rid, unit+"#") {
+						rid = rid[len(unit):]
+					}
+					r.Set("@id", rid)
+					vals = append(vals, r)
+				} else {
+					l := &OObj{}
+					l.Set("@value", v.Lit)
+					vals = append(vals, l)
+				}
+			}
+			o.Set(p.Pred, vals)
+		}
+		return o
+	}
+	var top []any
+	embedded := map[string]bool{}
+	for _, n := range g.Nodes {
+		if _, isUnit := children[n.ID]; isUnit {
+			o := render(n, n.ID, embedded)
+			c := &OObj{}
+			c.Set("@base", n.ID)
+			w := &OObj{}
+			w.Set("@context", c)
+			for i, k := range o.Keys {
+				w.Set(k, o.Vals[i])
+			}
+			top = append(top, w)
+		}
+	}
+	for _, n := range g.Nodes {
+		if _, isUnit := children[n.ID]; isUnit || embedded[n.ID] {
+			continue
+		}
+		top = append(top, render(n, "", embedded))
+	}
+	var b strings.Builder
+	emitJSON(&b, top, &jsonStyle{colon: ":"}, 0)
+	return b.String(), true
+}
